@@ -1070,7 +1070,6 @@ fn db_class(feat: &[u64], o: &XOut) -> u32 {
     let (site, cls) = match o { XOut::Panic(m) => { let mut it = m.splitn(2, " | "); let loc = it.next().unwrap_or(""); (file_code(loc), msg_class(it.next().unwrap_or(""))) } _ => (0, 0) };
     match o {
         XOut::Panic(_) if page_file && matches!(site, 9 | 14 | 22) && cls == 4 => 14,
-        XOut::Timeout if page_file => 12,
         XOut::Panic(_) if fk == 2 && off >= 128 && matches!(site, 9 | 10 | 11 | 22) && cls == 4 => 15,
         _ => 0,
     }
